@@ -15,7 +15,7 @@ CLAIMED = {
             "decides: one droplet per original, volume = covered cells (own min-image oracle), centre within half a "
             "cell, position inside the box", "§4 C01"),
     "C02": ("bounded symbolic execution of locate_droplets_in_mask on every binary image (bits symbolic, forked) of "
-            "Cartesian grids 1D <=6 cells / 2D 3x3 with every periodicity mask and symbolic spacing/origin (2D: "
+            "Cartesian grids 1D <=6 cells / 2D 3x3 (thorough: every doubly periodic 4x4 image) with every periodicity mask and symbolic spacing/origin (2D: "
             "anisotropic spacing times a symbolic scale), cylindrical 2x3/3x3 and 3x4 with periodic z; independent torus flood-fill oracle; "
             "z3 decides one-to-one correspondence to components (volume, unwrapped centre of mass modulo the "
             "period), non-overlap of results, and the left-out rule", "§4 C02"),
@@ -52,7 +52,7 @@ CLAIMED = {
             "plus locate_droplets / DropletTracker through the real locator on fields of symbolic values with every "
             "threshold rule and option combination; documented ValueError / TypeError requests checked", "§4 C09"),
     "C10": ("bounded symbolic execution of remove_overlapping / get_pairwise_distances / overlaps / "
-            "get_neighbor_distances / from_random on n<=3 (thorough 4) droplets, dims 1-3, with and without periodic "
+            "get_neighbor_distances / from_random on n<=3 droplets (plus 4 at concrete positions; thorough 4 free), dims 1-3, with and without periodic "
             "grids; positions, radii, minimal distance and rng draws symbolic; independent min-image oracle", "§4 C10"),
     "C11": ("bounded symbolic execution of merge (in-place, out-of-place, direct kernel call, 2 and 3 operands, "
             "unset widths) in dims 1-3 with symbolic positions/radii/widths; z3 decides volume, centre of mass, width, "
@@ -73,7 +73,7 @@ CLAIMED = {
             "LengthScaleTracker with an analysis stub that raises any of 7 exception types on a symbolic subset "
             "of frames", "§4 C14"),
     "C15": ("bounded symbolic execution of EmulsionTimeCourse.from_storage and refine_droplets / locate_droplets("
-            "refine=True) against a process-pool model (tasks on deep copies, every completion order of 3-4 tasks, "
+            "refine=True) against a process-pool model (tasks on pickled copies following the objects' pickle protocol, numpy records restored detached; every completion order of 3-4 tasks, "
             "num_processes in {1,2,3,'auto'}) with locate_droplets / least_squares as uninterpreted functions of "
             "all their arguments; float replays use the real ProcessPoolExecutor", "§4 C15"),
     "C16": ("bounded symbolic execution of get_structure_factor on periodic Cartesian grids with axis lengths in "
